@@ -72,7 +72,7 @@ fn view(a: &Al<{n}>) -> &Un{ga} {{ unsafe {{ &*(a.0.as_ptr() as *const Un{ga}) }
 }}
 '''
     hs.append(h)
-    h = Harness('h_hash', unwind=16, covers=['reached'])
+    h = Harness('h_hash', unwind=10, covers=['reached'])
     body += h.attrs() + f'''pub fn h_hash() {{
     let a = Al::<{n}>(Sym::sym());
     let got = rec_of(view(&a));
@@ -148,7 +148,10 @@ def gen(tier, seed):
     for li, tys in enumerate(layouts):
         name = [None, 'Rn', False][li % 3]
         if tier == 'quick':
-            pats = [PATS[li % 3]] if li % 2 == 0 else []
+            size, align, _ = layout(tys)
+            if size != align and li % 2 == 0:
+                name = False      # the bare form on a layout whose size differs from its alignment
+            pats = [PATS[li % 3]]
             mods.append(emit(f'm{n:04d}', tys, name, dbg_bytes=pats, default_idx=li % len(tys), with_default_expr=li % 2 == 1, pretty_max=4)); n += 1
         else:
             for nm in (None, 'Rn', False):
